@@ -3,6 +3,8 @@
 real StringIO / BytesIO modules over the real AsynTcp on a fake socket with a scripted device;
 2-4 caller threads plus a poll thread, all managed by the deterministic scheduler in virtual time.
 """
+import types
+
 from hypothesis import strategies as st
 
 from vf import dsched, fakenet
@@ -35,7 +37,10 @@ def scenario(draw):
     for t in range(draw(st.integers(2, 4))):
         ops = []
         for n in range(draw(st.integers(1, 4))):
-            what = draw(st.sampled_from(['comm', 'comm', 'comm', 'write', 'multi', 'sleep']))
+            what = draw(st.sampled_from(['comm', 'comm', 'comm', 'write', 'multi', 'sleep', 'retry']))
+            if what == 'retry':    # a caller trying again shortly after (notices a lost connection, then reconnects itself)
+                ops += [['comm', f'c{t}{n}'], ['sleep', draw(st.sampled_from([0.5, 3.0]))], ['comm', f'r{t}{n}']]
+                continue
             if what == 'multi':
                 ops.append(['multi', [[f'm{t}{n}{j}', draw(st.booleans()) if kind == 'string' else True, draw(st.sampled_from([0, 0.25, 0.5]))]
                                       for j in range(draw(st.integers(0, 3)))]])
@@ -50,7 +55,7 @@ def scenario(draw):
     for _ in range(draw(st.integers(0, 4))):
         faults[str(draw(st.integers(0, 10)))] = draw(st.sampled_from(['garbage', 'garbage-joined', 'late', 'silent', 'close-before', 'close-inside', 'close-after', 'chunk1', 'chunk3']))
     return {'kind': 'scenario', 'io': kind, 'callers': callers, 'faults': faults, 'refuse': draw(st.sampled_from([0, 0, 1, 3])),
-            'banner': draw(st.booleans()), 'schedule': draw(st.lists(st.integers(0, 4), min_size=10, max_size=200))}
+            'banner': draw(st.booleans()), 'poller': draw(st.sampled_from(['model', 'real'])), 'schedule': draw(st.lists(st.integers(0, 4), min_size=10, max_size=200))}
 
 
 class Device:
@@ -171,7 +176,6 @@ def run(case):
     import frappy.io as fio
     import frappy.lib.asynconn as ac
     from frappy.lib import generalConfig
-    import types
     ac.AsynConn.__del__ = lambda self: None
     world = World(case)
     net = fakenet.FakeNet(world.factory)
@@ -207,15 +211,28 @@ def run(case):
             out['connect_exc'] = e
             return
         stop = []
+        out['polls'] = polls = []
+        real_poller = case.get('poller') == 'real'
+        if real_poller:
+            # the poll thread of the framework itself (it registers its own reconnect callback re-triggering the polls)
+            do_poll = io.doPoll
 
-        def poller():
-            while not stop:
-                try:
-                    io.doPoll()
-                except Exception:   # noqa - silent errors while disconnected
-                    pass
-                dsched.v_sleep(INTERVAL)
-        pt = s.spawn(poller, _name='T:poller')
+            def counted():
+                polls.append(dsched.v_time())
+                return do_poll()
+            io.doPoll = counted
+            io.initModule()
+            io.startModule(types.SimpleNamespace(get_trigger=lambda timeout=None: (lambda: None)))
+            pt = None
+        else:
+            def poller():
+                while not stop:
+                    try:
+                        io.doPoll()
+                    except Exception:   # noqa - silent errors while disconnected
+                        pass
+                    dsched.v_sleep(INTERVAL)
+            pt = s.spawn(poller, _name='T:poller')
         threads = []
         for ti, ops in enumerate(case['callers']):
             def caller(ti=ti, ops=ops):
@@ -249,14 +266,31 @@ def run(case):
         # let the self-healing happen: the device accepts again after the refused attempts
         dsched.v_sleep(INTERVAL * (case.get('refuse', 0) + 2) + 1)
         out['connected_at_end'] = bool(io.is_connected)
+        out['end_time'] = dsched.v_time()
         stop.append(1)
-        pt.join()
+        if pt:
+            pt.join()
+        else:
+            io.stopPollThread()
+            io.joinPollThread(5)
 
+    import frappy.modulebase as mb
+    ticks = [0]
+
+    def ticking_time():
+        # the poll loop compares with '>' and waits only for '> 0': at an exact boundary it spins until the clock moves on,
+        # so the clock the poll thread sees moves a microsecond per look
+        ticks[0] += 1
+        return dsched.v_time() + ticks[0] * 1e-6
     with dsched.Patcher(extra=net.patch_map()):
+        saved = mb.time
+        mb.time = types.SimpleNamespace(time=ticking_time, sleep=dsched.v_sleep, monotonic=ticking_time)
         try:
             s.run(main)
         except (dsched.Deadlock, dsched.StepLimit) as e:
             out['error'] = e
+        finally:
+            mb.time = saved
     return out
 
 
@@ -330,14 +364,27 @@ def check(ctx, case):
                 return
     # (6) reconnection is attempted no more often than the reconnect interval allows
     attempts = [t for t, _ in out['net'].attempts]
-    for td in world.disconnects:
-        after = [t for t in attempts if t >= td]
-        # two sources try to reconnect: the poll of is_connected (once per interval) and the callers (rate limited to once per
-        # interval): any window shorter than the interval may hold at most one attempt of each
-        for i, a in enumerate(after):
-            if len([b for b in after[i:] if b - a < INTERVAL * 0.99]) > 2:
-                ctx.finding('reconnect-attempts-too-frequent', case, f'connection attempts at {[round(t - s.t0, 2) for t in after][:8]} (interval {INTERVAL})')
-                return
+    by_poller = ['poll' in n.lower() for n in out['net'].attempt_threads]
+    # the framework's poll thread reaches read_is_connected both through doPoll (every pollinterval) and through the periodic
+    # poll of the parameter is_connected (every slowinterval): its second attempt within one interval is the known finding
+    # C16:...:poll-thread-main-and-parameter-poll; it is told apart by judging the attempts without these duplicates first
+    dedup, last_poll = [], None
+    for t, p in zip(attempts, by_poller):
+        if p and case.get('poller') == 'real':
+            if last_poll is not None and t - last_poll < INTERVAL * 0.99:
+                continue
+            last_poll = t
+        dedup.append(t)
+    for name, lst in (('', dedup), (':poll-thread-main-and-parameter-poll', attempts)):
+        for td in world.disconnects:
+            after = [t for t in lst if t >= td]
+            # two sources try to reconnect: the poll of is_connected (once per interval) and the callers (rate limited to once per
+            # interval): any window shorter than the interval may hold at most one attempt of each
+            for i, a in enumerate(after):
+                if len([b for b in after[i:] if b - a < INTERVAL * 0.99]) > 2:
+                    ctx.finding('reconnect-attempts-too-frequent' + name, case,
+                                f'connection attempts at {[(round(t - s.t0, 2), n) for t, n in zip(attempts, out["net"].attempt_threads) if t >= td][:8]} (interval {INTERVAL})')
+                    return
     ctx.ok('reconnect-rate')
     # (7) after a successful reconnect every registered callback ran exactly once; the connection heals
     nrec = max(0, len(world.accepted) - 1)
@@ -349,6 +396,16 @@ def check(ctx, case):
             ctx.finding(f'reconnect-callback-count:{"missing" if n < nrec else "too-many"}', case, f'{nrec} reconnects, callback {name} ran {n} times')
             return
     ctx.ok('self-healing')
+    if case.get('poller') == 'real':
+        # polling resumes: the framework's poll thread polls again right after every reconnect (not only at its next regular turn)
+        for k, t in enumerate(world.accepted[1:], 1):
+            if t + TIMEOUT + 1 < out.get('end_time', 0) and not any(t <= p <= t + TIMEOUT + 1 for p in out['polls']):
+                nxt = min([p for p in out['polls'] if p > t] or [float('inf')])
+                ctx.finding(f'polling-not-resumed-after-reconnect:{"first" if k == 1 else "later"}', case,
+                            f'reconnect {k} at {t - s.t0:.2f}: next poll at {nxt - s.t0:.2f}')
+                return
+        ctx.ok('polling-resumed')
+        ctx.label('poller:real')
     ctx.label(f'io:{case["io"]}', f'disconnects:{len(world.disconnects)}', *[f'fault:{v}' for k, v in case['faults'].items() if int(k) < len(world.commands)])
     ctx.sample({'io': case['io'], 'callers': case['callers'], 'faults': case['faults'], 'device_log': [(round(t - s.t0, 2), c.decode('latin-1')) for t, c in world.commands][:12]}, every=97)
 
